@@ -25,7 +25,7 @@ func NewNode(node int64, min int64) (Node, error) {
 	}
 	var n = &HardNode{}
 	n.node = node
-	n.epoch = time.Unix(_epoch/SDivMs, (_epoch%SDivMs)*MsDivNs).UnixNano() / MsDivNs
+	n.epoch = time.Unix(_epoch/SDivMs, (_epoch%SDivMs)*MsDivNs).UnixMilli()
 	n.time, _, n.step = IDFields(min)
 	return n, nil
 }
@@ -35,7 +35,7 @@ func NewNode(node int64, min int64) (Node, error) {
 func (n *HardNode) Generate() int64 {
 	n.mu.Lock()
 	defer n.mu.Unlock()
-	var now = _HookNow().UnixNano()/MsDivNs - n.epoch
+	var now = _HookNow().UnixMilli() - n.epoch
 
 	if now > n.time {
 		n.step = 0
